@@ -43,7 +43,7 @@ Lemma cons_tok_nonnil t ts : t <> [] -> cons_tok t ts = t :: ts.
 Proof. destruct t; [congruence|reflexivity]. Qed.
 
 Lemma hex_facts c : is_hex c = true ->
-  is_ws c = false /\ c <> 117 /\ c <> 111 /\ c <> 9 /\ c <> 10 /\ c <> 13 /\ c <> 32.
+  is_ws c = false /\ c <> 117 /\ c <> 111 /\ c <> 9 /\ c <> 10 /\ c <> 13 /\ c <> 32 /\ c <> 105.
 Proof. unfold is_hex, is_ws. intro H. lia. Qed.
 
 Lemma digit_facts c : is_digit c = true -> is_ws c = false /\ c <> 10 /\ c <> 13.
@@ -64,17 +64,18 @@ Qed.
 Lemma print_N_no_ws n : no_ws (print_N n).
 Proof. apply digits_no_ws, print_N_digits. Qed.
 
-(* a line whose second character is neither u nor o is none of the keyword lines *)
+(* a line whose second character is none of u, o, i is none of the keyword lines *)
 Lemma not_keyword c1 c2 rest :
-  c2 <> 117 -> c2 <> 111 ->
+  c2 <> 117 -> c2 <> 111 -> c2 <> 105 ->
   strip_prefix author_prefix (c1 :: c2 :: rest) = None
   /\ existsb (fun p => has_prefix p (c1 :: c2 :: rest)) skipped_prefixes = false
-  /\ str_eqb (c1 :: c2 :: rest) boundary_word = false.
+  /\ str_eqb (c1 :: c2 :: rest) boundary_word = false
+  /\ strip_prefix filename_prefix (c1 :: c2 :: rest) = None.
 Proof.
-  intros Hu Ho. apply N.eqb_neq in Hu. apply N.eqb_neq in Ho.
-  unfold author_prefix, skipped_prefixes, boundary_word, has_prefix.
-  cbn. rewrite Hu, Ho. rewrite !andb_false_r.
-  destruct (c1 =? 97), (c1 =? 99), (c1 =? 98); cbn; auto.
+  intros Hu Ho Hi. apply N.eqb_neq in Hu. apply N.eqb_neq in Ho. apply N.eqb_neq in Hi.
+  unfold author_prefix, skipped_prefixes, boundary_word, filename_prefix, has_prefix.
+  cbn. rewrite Hu, Ho, Hi. rewrite !andb_false_r.
+  destruct (c1 =? 97), (c1 =? 99), (c1 =? 98), (c1 =? 102); cbn; auto.
 Qed.
 
 Section Classify.
@@ -88,14 +89,16 @@ Section Classify.
   Qed.
 
   Lemma header_shape k :
-    exists c1 c2 rest, header_line g k = c1 :: c2 :: rest /\ is_hex c1 = true /\ c2 <> 117 /\ c2 <> 111.
+    exists c1 c2 rest, header_line g k = c1 :: c2 :: rest /\ is_hex c1 = true /\ c2 <> 117 /\ c2 <> 111 /\ c2 <> 105.
   Proof.
     destruct ok_sha as [Hne Hhex]. unfold header_line.
     destruct (g_sha g) as [|c1 s] eqn:E; [congruence|].
     cbn in Hhex. apply andb_true_iff in Hhex as [H1 Hs].
     destruct s as [|c2 s].
-    - exists c1, c_sp. eexists. cbn. split; [reflexivity|]. split; [exact H1|]. unfold c_sp. split; discriminate.
-    - cbn in Hs. apply andb_true_iff in Hs as [H2 _]. destruct (hex_facts c2 H2) as (_ & A & B & _).
+    - exists c1, c_sp. eexists. cbn. split; [reflexivity|]. split; [exact H1|]. unfold c_sp.
+      split; [discriminate|]. split; discriminate.
+    - cbn in Hs. apply andb_true_iff in Hs as [H2 _].
+      destruct (hex_facts c2 H2) as (_ & A & B & _ & _ & _ & _ & D).
       exists c1, c2. eexists. cbn. split; [reflexivity|]. auto.
   Qed.
 
@@ -128,10 +131,10 @@ Section Classify.
     LHeader (g_sha g) (print_N (g_orig g + k)) (print_N (g_final g + k))
             (if k =? 0 then Some (print_N (g_num g)) else None).
   Proof.
-    destruct (header_shape k) as (c1 & c2 & rest & E & H1 & Hu & Ho).
-    destruct (not_keyword c1 c2 rest Hu Ho) as (A & B & C).
+    destruct (header_shape k) as (c1 & c2 & rest & E & H1 & Hu & Ho & Hi).
+    destruct (not_keyword c1 c2 rest Hu Ho Hi) as (A & B & C & D).
     destruct ok_sha as [Hne Hhex].
-    unfold classify. rewrite header_tokens. rewrite E. rewrite A, B, C.
+    unfold classify. rewrite header_tokens. rewrite E. rewrite A, B, C, D.
     destruct (hex_facts c1 H1) as (_ & _ & _ & T & _).
     apply N.eqb_neq in T. unfold content_prefix. rewrite T.
     unfold nth_tok. cbn [nth]. rewrite Hhex.
@@ -155,16 +158,17 @@ Section Classify.
   Qed.
 
   Lemma classify_word w t :
-    (w = s_summary \/ w = s_previous \/ w = s_filename) -> classify (w ++ t) = LSkip.
+    (w = s_summary \/ w = s_previous) -> classify (w ++ t) = LSkip.
   Proof.
-    intros [-> | [-> | ->]].
+    intros [-> | ->].
     - unfold classify. change (s_summary ++ t) with ([115;117;109;109;97;114;121] ++ 32 :: t).
       rewrite split_ws_tok by reflexivity. reflexivity.
     - unfold classify. change (s_previous ++ t) with ([112;114;101;118;105;111;117;115] ++ 32 :: t).
       rewrite split_ws_tok by reflexivity. reflexivity.
-    - unfold classify. change (s_filename ++ t) with ([102;105;108;101;110;97;109;101] ++ 32 :: t).
-      rewrite split_ws_tok by reflexivity. reflexivity.
   Qed.
+
+  Lemma classify_filename t : classify (filename_prefix ++ t) = LFilename t.
+  Proof. reflexivity. Qed.
 
   Lemma classify_boundary : classify boundary_word = LBoundary.
   Proof. reflexivity. Qed.
@@ -188,52 +192,64 @@ Arguments classify : simpl never.
 (* ================================================================== 2. the parser on what git prints *)
 
 Definition meta_after (g : gentry) (m : pmeta) : pmeta :=
-  mkMeta (g_author g) (if g_boundary g then true else m_boundary m).
+  mkMeta (g_author g) (if g_boundary g then true else m_boundary m) (g_filename g).
+
+Definition meta_of (g : gentry) : pmeta := mkMeta (g_author g) (g_boundary g) (g_filename g).
 
 Definition cur_of (g : gentry) : pcur := mkCur (g_sha g) (g_final g) (g_orig g) (g_num g).
 
-Lemma parse_skip l ls acc c m : classify l = LSkip -> parse_lines (l :: ls) acc c m = parse_lines ls acc c m.
+Section Parser.
+Variable dq : list N -> list N.
+
+Lemma parse_skip l ls acc c m : classify l = LSkip -> parse_lines dq (l :: ls) acc c m = parse_lines dq ls acc c m.
 Proof. intro H. cbn [parse_lines]. rewrite H. reflexivity. Qed.
 
 Lemma parse_author l a ls acc c m :
-  classify l = LAuthor a -> parse_lines (l :: ls) acc c m = parse_lines ls acc c (mkMeta a (m_boundary m)).
+  classify l = LAuthor a ->
+  parse_lines dq (l :: ls) acc c m = parse_lines dq ls acc c (mkMeta a (m_boundary m) (m_filename m)).
 Proof. intro H. cbn [parse_lines]. rewrite H. reflexivity. Qed.
 
 Lemma parse_boundary l ls acc c m :
-  classify l = LBoundary -> parse_lines (l :: ls) acc c m = parse_lines ls acc c (mkMeta (m_author m) true).
+  classify l = LBoundary ->
+  parse_lines dq (l :: ls) acc c m = parse_lines dq ls acc c (mkMeta (m_author m) true (m_filename m)).
 Proof. intro H. cbn [parse_lines]. rewrite H. reflexivity. Qed.
+
+Lemma parse_filename l raw f ls acc c m :
+  classify l = LFilename raw -> unescape_git_path dq raw = Some f ->
+  parse_lines dq (l :: ls) acc c m = parse_lines dq ls acc c (mkMeta (m_author m) (m_boundary m) f).
+Proof. intros H U. cbn [parse_lines]. rewrite H, U. reflexivity. Qed.
 
 Lemma parse_header4 l sha p2 p3 p4 ls acc c m hs :
   classify l = LHeader sha p2 p3 (Some p4) -> flush_cur c m = Ok hs ->
-  parse_lines (l :: ls) acc c m
-  = parse_lines ls (acc ++ hs) (Some (mkCur sha (u32_or 0 p3) (u32_or 0 p2) (u32_or 1 p4))) meta0.
+  parse_lines dq (l :: ls) acc c m
+  = parse_lines dq ls (acc ++ hs) (Some (mkCur sha (u32_or 0 p3) (u32_or 0 p2) (u32_or 1 p4))) meta0.
 Proof. intros H Hf. cbn [parse_lines]. rewrite H, Hf. reflexivity. Qed.
 
 Lemma parse_header3 l sha p2 p3 ls acc c0 m :
   classify l = LHeader sha p2 p3 None ->
-  parse_lines (l :: ls) acc (Some c0) m = parse_lines ls acc (Some c0) m.
+  parse_lines dq (l :: ls) acc (Some c0) m = parse_lines dq ls acc (Some c0) m.
 Proof. intro H. cbn [parse_lines]. rewrite H. reflexivity. Qed.
 
 Lemma parse_meta_lines g content rest acc c m :
-  gentry_ok g = true ->
-  parse_lines (meta_lines g ++ [[content_prefix] ++ content] ++ rest) acc c m
-  = parse_lines rest acc c (meta_after g m).
+  gentry_ok g = true -> unescape_git_path dq (g_filename_printed g) = Some (g_filename g) ->
+  parse_lines dq (meta_lines g ++ [[content_prefix] ++ content] ++ rest) acc c m
+  = parse_lines dq rest acc c (meta_after g m).
 Proof.
-  intro Hok. unfold meta_lines. rewrite <- !app_assoc. cbn [app].
+  intros Hok Hun. unfold meta_lines. rewrite <- !app_assoc. cbn [app].
   rewrite (parse_author _ _ _ _ _ _ (classify_author g)).
   do 7 (rewrite parse_skip by (apply (classify_skipped g Hok); lia)).
   rewrite parse_skip by (apply classify_word; auto).
   assert (Hprev : forall ls m',
-    parse_lines ((match g_previous g with Some p => [s_previous ++ p] | None => [] end) ++ ls) acc c m'
-    = parse_lines ls acc c m').
+    parse_lines dq ((match g_previous g with Some p => [s_previous ++ p] | None => [] end) ++ ls) acc c m'
+    = parse_lines dq ls acc c m').
   { intros ls m'. destruct (g_previous g); [|reflexivity]. cbn [app].
     apply parse_skip. apply classify_word; auto. }
   rewrite Hprev.
   unfold meta_after. destruct (g_boundary g); cbn [app].
-  - rewrite (parse_boundary _ _ _ _ _ classify_boundary). cbn [m_author m_boundary].
-    rewrite parse_skip by (apply classify_word; auto).
+  - rewrite (parse_boundary _ _ _ _ _ classify_boundary). cbn [m_author m_boundary m_filename].
+    rewrite (parse_filename _ _ _ _ _ _ _ (classify_filename _) Hun).
     rewrite parse_skip by apply classify_content. reflexivity.
-  - rewrite parse_skip by (apply classify_word; auto).
+  - rewrite (parse_filename _ _ _ _ _ _ _ (classify_filename _) Hun).
     rewrite parse_skip by apply classify_content. destruct m; reflexivity.
 Qed.
 
@@ -256,61 +272,61 @@ Proof. intro H. unfold u32_or. rewrite parse_u32_print by exact H. reflexivity. 
 
 (* the first line of a group: flushes the previous hunk and starts the new one *)
 Lemma parse_block_first g content rest acc c m hs :
-  gentry_ok g = true -> flush_cur c m = Ok hs ->
-  parse_lines (line_block g 0 content ++ rest) acc c m
-  = parse_lines rest (acc ++ hs) (Some (cur_of g)) (mkMeta (g_author g) (g_boundary g)).
+  gentry_ok g = true -> unescape_git_path dq (g_filename_printed g) = Some (g_filename g) -> flush_cur c m = Ok hs ->
+  parse_lines dq (line_block g 0 content ++ rest) acc c m
+  = parse_lines dq rest (acc ++ hs) (Some (cur_of g)) (meta_of g).
 Proof.
-  intros Hok Hf. destruct (ok_bounds g Hok) as (Hn & _ & Hfb & Hob).
+  intros Hok Hun Hf. destruct (ok_bounds g Hok) as (Hn & _ & Hfb & Hob).
   unfold line_block. rewrite <- app_comm_cons.
   pose proof (classify_header g Hok 0) as Hc. change (0 =? 0) with true in Hc. cbn iota in Hc.
   rewrite (parse_header4 _ _ _ _ _ _ _ _ _ _ Hc Hf).
   rewrite !N.add_0_r. rewrite !u32_or_print by lia.
-  rewrite <- app_assoc. rewrite parse_meta_lines by exact Hok.
-  unfold meta_after, meta0, cur_of. cbn [m_boundary]. destruct (g_boundary g); reflexivity.
+  rewrite <- app_assoc. rewrite parse_meta_lines by assumption.
+  unfold meta_after, meta_of, meta0, cur_of. cbn [m_boundary]. destruct (g_boundary g); reflexivity.
 Qed.
 
 (* a later line of the same group: nothing but the (identical) metadata is read *)
 Lemma parse_block_cont g k content rest acc c0 :
-  gentry_ok g = true -> k <> 0 ->
-  parse_lines (line_block g k content ++ rest) acc (Some c0) (mkMeta (g_author g) (g_boundary g))
-  = parse_lines rest acc (Some c0) (mkMeta (g_author g) (g_boundary g)).
+  gentry_ok g = true -> unescape_git_path dq (g_filename_printed g) = Some (g_filename g) -> k <> 0 ->
+  parse_lines dq (line_block g k content ++ rest) acc (Some c0) (meta_of g)
+  = parse_lines dq rest acc (Some c0) (meta_of g).
 Proof.
-  intros Hok Hk. unfold line_block. rewrite <- app_comm_cons.
+  intros Hok Hun Hk. unfold line_block. rewrite <- app_comm_cons.
   pose proof (classify_header g Hok k) as Hc. apply N.eqb_neq in Hk. rewrite Hk in Hc.
   rewrite (parse_header3 _ _ _ _ _ _ _ _ Hc).
-  rewrite <- app_assoc. rewrite parse_meta_lines by exact Hok.
-  unfold meta_after. cbn [m_boundary]. destruct (g_boundary g); reflexivity.
+  rewrite <- app_assoc. rewrite parse_meta_lines by assumption.
+  unfold meta_after, meta_of. cbn [m_boundary]. destruct (g_boundary g); reflexivity.
 Qed.
 
 Lemma parse_blocks_cont g cs : forall k rest acc c0,
-  gentry_ok g = true -> k <> 0 ->
-  parse_lines (entry_blocks g k cs ++ rest) acc (Some c0) (mkMeta (g_author g) (g_boundary g))
-  = parse_lines rest acc (Some c0) (mkMeta (g_author g) (g_boundary g)).
+  gentry_ok g = true -> unescape_git_path dq (g_filename_printed g) = Some (g_filename g) -> k <> 0 ->
+  parse_lines dq (entry_blocks g k cs ++ rest) acc (Some c0) (meta_of g)
+  = parse_lines dq rest acc (Some c0) (meta_of g).
 Proof.
-  induction cs as [|c cs IH]; intros k rest acc c0 Hok Hk; [reflexivity|].
+  induction cs as [|c cs IH]; intros k rest acc c0 Hok Hun Hk; [reflexivity|].
   cbn [entry_blocks]. rewrite <- app_assoc. rewrite parse_block_cont by assumption.
-  apply IH; [assumption|lia].
+  apply IH; [assumption|assumption|lia].
 Qed.
 
 Lemma parse_entry g rest acc c m hs :
-  gentry_ok g = true -> flush_cur c m = Ok hs ->
-  parse_lines (entry_lines g ++ rest) acc c m
-  = parse_lines rest (acc ++ hs) (Some (cur_of g)) (mkMeta (g_author g) (g_boundary g)).
+  gentry_ok g = true -> unescape_git_path dq (g_filename_printed g) = Some (g_filename g) -> flush_cur c m = Ok hs ->
+  parse_lines dq (entry_lines g ++ rest) acc c m
+  = parse_lines dq rest (acc ++ hs) (Some (cur_of g)) (meta_of g).
 Proof.
-  intros Hok Hf. destruct (ok_bounds g Hok) as (Hn & Hlen & _).
+  intros Hok Hun Hf. destruct (ok_bounds g Hok) as (Hn & Hlen & _).
   unfold entry_lines. destruct (g_content g) as [|ct cs] eqn:E.
   - cbn in Hlen. lia.
   - cbn [entry_blocks]. rewrite <- app_assoc.
     rewrite (parse_block_first g ct _ acc _ m hs) by assumption.
-    apply parse_blocks_cont; [assumption|lia].
+    apply parse_blocks_cont; [assumption|assumption|lia].
 Qed.
 
 Lemma flush_entry g :
   gentry_ok g = true ->
-  flush_cur (Some (cur_of g)) (mkMeta (g_author g) (g_boundary g)) = Ok [hunk_of_entry g].
+  flush_cur (Some (cur_of g)) (meta_of g) = Ok [hunk_of_entry g].
 Proof.
   intro Hok. destruct (ok_bounds g Hok) as (Hn & _ & Hfb & Hob).
-  unfold flush_cur, cur_of. cbn [c_group c_final c_orig].
+  unfold flush_cur, cur_of, meta_of. cbn [c_group c_final c_orig].
   assert (0 <? g_num g = true) as -> by lia.
   assert (u32_max <? g_final g + g_num g = false) as -> by lia.
   assert (u32_max <? g_orig g + g_num g = false) as -> by lia.
@@ -318,12 +334,14 @@ Proof.
 Qed.
 
 Lemma parse_entries es : forall acc c m hs,
-  wf_entries es = true -> flush_cur c m = Ok hs ->
-  parse_lines (print_lines es) acc c m = Ok (acc ++ hs ++ map hunk_of_entry es).
+  wf_entries es = true -> names_agree dq es -> flush_cur c m = Ok hs ->
+  parse_lines dq (print_lines es) acc c m = Ok (acc ++ hs ++ map hunk_of_entry es).
 Proof.
-  induction es as [|g es IH]; intros acc c m hs Hwf Hf.
+  induction es as [|g es IH]; intros acc c m hs Hwf Hna Hf.
   - cbn [print_lines flat_map parse_lines map]. rewrite Hf. rewrite app_nil_r. reflexivity.
   - cbn in Hwf. apply andb_true_iff in Hwf as [Hg Hes].
+    assert (Hun : unescape_git_path dq (g_filename_printed g) = Some (g_filename g)) by (apply Hna; left; reflexivity).
+    assert (Hna' : names_agree dq es) by (intros g' Hg'; apply Hna; right; exact Hg').
     unfold print_lines. cbn [flat_map]. fold (print_lines es).
     rewrite (parse_entry g _ acc c m hs) by assumption.
     rewrite (IH _ _ _ [hunk_of_entry g]) by (auto using flush_entry).
@@ -414,13 +432,14 @@ Proof.
 Qed.
 
 Theorem porcelain_roundtrip es :
-  wf_entries es = true ->
-  parse_line_porcelain (print_line_porcelain es) = Ok (map hunk_of_entry es).
+  wf_entries es = true -> names_agree dq es ->
+  parse_line_porcelain dq (print_line_porcelain es) = Ok (map hunk_of_entry es).
 Proof.
-  intro Hwf. unfold parse_line_porcelain, print_line_porcelain.
+  intros Hwf Hna. unfold parse_line_porcelain, print_line_porcelain.
   rewrite clean_lines_lines by (apply print_lines_clean, Hwf).
   rewrite (parse_entries es [] None meta0 []) by auto. reflexivity.
 Qed.
+End Parser.
 
 (* ================================================================== 3. lines of hunks, splitting *)
 
@@ -443,7 +462,7 @@ Lemma hunk_lines_entry g :
   hunk_lines (hunk_of_entry g) = map bline_of_gline (entry_glines g).
 Proof.
   intro Hok. destruct (ok_bounds g Hok) as (Hn & _).
-  unfold hunk_lines, entry_glines, hunk_of_entry, hunk_len. cbn [h_start h_end h_ostart h_sha h_author h_boundary].
+  unfold hunk_lines, entry_glines, hunk_of_entry, hunk_len. cbn [h_start h_end h_ostart h_sha h_author h_boundary h_path].
   replace (g_final g + g_num g - 1 - g_final g + 1) with (g_num g) by lia.
   rewrite map_map. reflexivity.
 Qed.
@@ -462,7 +481,7 @@ Lemma opt_str_eqb_refl a : opt_str_eqb a a = true.
 Proof. destruct a; [apply str_eqb_refl|reflexivity]. Qed.
 
 Definition mk_lines (h : hunk) (l : list (N * N)) : list bline :=
-  map (fun fo => mkBline (fst fo) (snd fo) (h_sha h) (h_author h) (h_boundary h)) l.
+  map (fun fo => mkBline (fst fo) (snd fo) (h_sha h) (h_author h) (h_boundary h) (h_path h)) l.
 
 (* the groups produced from index cs on cover exactly the lines from cs to the end of the hunk *)
 Lemma split_runs_lines h rest : forall cs cur i,
@@ -473,12 +492,12 @@ Lemma split_runs_lines h rest : forall cs cur i,
 Proof.
   induction rest as [|a rest IH]; intros cs cur i Hse Hcs Hlen.
   - cbn [split_runs flat_map]. rewrite app_nil_r. unfold hunk_lines, hunk_len, mk_lines.
-    cbn [h_start h_end h_ostart h_sha h_author h_boundary length] in *.
+    cbn [h_start h_end h_ostart h_sha h_author h_boundary h_path length] in *.
     replace (h_end h - (h_start h + cs) + 1) with (h_end h - h_start h + 1 - cs) by lia. reflexivity.
   - cbn [split_runs]. cbn [length] in Hlen. destruct (opt_str_eqb a cur).
     + apply IH; lia.
     + cbn [flat_map]. rewrite (IH i a (i + 1)) by lia.
-      unfold hunk_lines at 1. unfold hunk_len. cbn [h_start h_end h_ostart h_sha h_author h_boundary].
+      unfold hunk_lines at 1. unfold hunk_len. cbn [h_start h_end h_ostart h_sha h_author h_boundary h_path].
       replace (N.to_nat (h_end h - h_start h + 1 - cs))
         with (N.to_nat (i - cs) + N.to_nat (h_end h - h_start h + 1 - i))%nat by lia.
       rewrite lines_from_app. unfold mk_lines. rewrite map_app. f_equal.
@@ -601,7 +620,7 @@ Qed.
 Lemma overlay_hunk_lines o notes foreign path h :
   overlay_hunk o notes foreign path h = map (line_out o notes foreign path) (hunk_lines h).
 Proof.
-  unfold overlay_hunk, hunk_lines. rewrite map_map. unfold line_out. cbn [bl_sha bl_orig bl_final bl_author].
+  unfold overlay_hunk, hunk_lines. rewrite map_map. unfold line_out. cbn [bl_sha bl_orig bl_final bl_author bl_path].
   destruct (notes (h_sha h)) as [log|]; [reflexivity|].
   rewrite <- (lines_from_fst (hunk_len h) (h_start h) (h_ostart h)). rewrite map_map. reflexivity.
 Qed.
@@ -614,44 +633,47 @@ Proof.
 Qed.
 
 Lemma line_out_spec o notes foreign path x :
-  gl_filename x = path ->
+  gl_filename x <> [] ->
   line_out o notes foreign path (bline_of_gline x) = spec_line o notes foreign x.
 Proof.
-  intro E. unfold line_out, spec_line, bline_of_gline. cbn [bl_sha bl_orig bl_final bl_author].
-  destruct (notes (gl_sha x)); [|reflexivity].
-  rewrite attribution_is_note_attribution, E. reflexivity.
+  intro E. unfold line_out, spec_line, bline_of_gline. cbn [bl_sha bl_orig bl_final bl_author bl_path].
+  assert (lookup_path (gl_filename x) path = gl_filename x) as Hl
+    by (unfold lookup_path; destruct (gl_filename x); congruence).
+  rewrite Hl. destruct (notes (gl_sha x)); [|reflexivity].
+  rewrite attribution_is_note_attribution. reflexivity.
 Qed.
 
-(* the whole pipeline on git's output, when every line's path-in-its-commit is the requested path *)
-Theorem overlay_spec o notes foreign path es :
-  wf_entries es = true ->
-  (forall x, In x (glines es) -> gl_filename x = path) ->
-  blame_lines o notes foreign path (print_line_porcelain es)
+Lemma glines_filename es x :
+  wf_entries es = true -> In x (glines es) -> gl_filename x <> [].
+Proof.
+  intros Hwf Hx. unfold glines in Hx. apply in_flat_map in Hx as (g & Hg & Hx).
+  unfold wf_entries in Hwf. rewrite forallb_forall in Hwf. apply Hwf in Hg.
+  unfold entry_glines in Hx. apply in_map_iff in Hx as (fo & <- & _). cbn [gl_filename].
+  unfold gentry_ok in Hg. repeat (apply andb_true_iff in Hg as [Hg ?]).
+  destruct (g_filename g); [discriminate|discriminate].
+Qed.
+
+(* the whole pipeline on git's output = the specification: every line is looked up in the note of its commit
+   under the path the file had in that commit, whatever path was requested *)
+Theorem overlay_spec dq o notes foreign path es :
+  wf_entries es = true -> names_agree dq es ->
+  blame_lines dq o notes foreign path (print_line_porcelain es)
   = Ok (map (spec_line o notes foreign) (glines es)).
 Proof.
-  intros Hwf Hpath. unfold blame_lines, blame_hunks. rewrite porcelain_roundtrip by exact Hwf.
+  intros Hwf Hna. unfold blame_lines, blame_hunks. rewrite porcelain_roundtrip by assumption.
   rewrite overlay_lines. rewrite split_hunks_lines.
-  - rewrite roundtrip_lines by exact Hwf. rewrite map_map. f_equal.
-    apply map_ext_in. intros x Hx. apply line_out_spec, Hpath, Hx.
+  - rewrite roundtrip_lines by exact Hwf. rewrite map_map.
+    apply f_equal. apply map_ext_in. intros x Hx. apply line_out_spec. eapply glines_filename; eauto.
   - apply Forall_forall. intros h Hh. apply in_map_iff in Hh as (g & <- & Hg).
     apply hunk_of_entry_wf. unfold wf_entries in Hwf. rewrite forallb_forall in Hwf. apply Hwf, Hg.
 Qed.
 
-(* without the path hypothesis: the pipeline is the specification evaluated at the REQUESTED path *)
-Theorem overlay_requested_path o notes foreign path es :
-  wf_entries es = true ->
-  blame_lines o notes foreign path (print_line_porcelain es)
-  = Ok (map (fun x => spec_line o notes foreign
-                        (mkGline (gl_final x) (gl_orig x) (gl_sha x) (gl_author x) (gl_boundary x) path))
-            (glines es)).
-Proof.
-  intro Hwf. unfold blame_lines, blame_hunks. rewrite porcelain_roundtrip by exact Hwf.
-  rewrite overlay_lines. rewrite split_hunks_lines.
-  - rewrite roundtrip_lines by exact Hwf. rewrite map_map. f_equal.
-    apply map_ext. intro x. rewrite <- (line_out_spec o notes foreign path) by reflexivity. reflexivity.
-  - apply Forall_forall. intros h Hh. apply in_map_iff in Hh as (g & <- & Hg).
-    apply hunk_of_entry_wf. unfold wf_entries in Hwf. rewrite forallb_forall in Hwf. apply Hwf, Hg.
-Qed.
+(* in particular the requested path (the file's current name) does not matter: a rename changes nothing *)
+Theorem path_independent dq o notes foreign path path' es :
+  wf_entries es = true -> names_agree dq es ->
+  blame_lines dq o notes foreign path (print_line_porcelain es)
+  = blame_lines dq o notes foreign path' (print_line_porcelain es).
+Proof. intros Hwf Hna. rewrite !overlay_spec by assumption. reflexivity. Qed.
 
 (* ================================================================== 5. JSON grouping *)
 
@@ -986,17 +1008,40 @@ Qed.
 Theorem empty_file_rejected : prepare_ranges 0 [] = Err.
 Proof. reflexivity. Qed.
 
-(* a single number is read as n,n (git reads `-L n` as n..end of file) *)
-Theorem single_number_range n : n <= u32_max -> parse_line_range (print_N n) = Some (n, n).
+Lemma no_comma_digits n : split_first c_comma (print_N n) = None.
 Proof.
-  intro H. unfold parse_line_range.
   assert (Hm : mem c_comma (print_N n) = false)
     by (apply mem_digits_false; [reflexivity|apply print_N_digits]).
   pose proof (split_first_spec c_comma (print_N n)) as S.
-  destruct (split_first c_comma (print_N n)) as [[a b]|].
-  - destruct S as [S1 S2]. rewrite S1 in Hm. rewrite mem_false_app in Hm. cbn in Hm.
-    rewrite N.eqb_refl in Hm. rewrite orb_true_r in Hm. discriminate.
-  - rewrite parse_u32_print by exact H. reflexivity.
+  destruct (split_first c_comma (print_N n)) as [[a b]|]; [|reflexivity].
+  destruct S as [S1 S2]. rewrite S1 in Hm. rewrite mem_false_app in Hm. cbn in Hm.
+  rewrite N.eqb_refl in Hm. rewrite orb_true_r in Hm. discriminate.
+Qed.
+
+(* `-L n`: from n to the end of the file, as git reads it *)
+Theorem single_number_range n total :
+  1 <= n -> n <= total -> total < u32_max ->
+  exists r, parse_line_range (print_N n) = Some r /\ prepare_ranges total [r] = Ok [(n, total)].
+Proof.
+  intros H1 H2 H3. exists (n, line_range_eof). split.
+  - unfold parse_line_range. rewrite no_comma_digits. rewrite parse_u32_print by lia. reflexivity.
+  - unfold prepare_ranges. cbn [map fst snd]. rewrite N.eqb_refl. cbn [forallb fst snd].
+    unfold range_valid. cbn [fst snd].
+    assert (((n =? 0) || (total =? 0) || (total <? n) || (total <? total)) = false) as -> by lia.
+    reflexivity.
+Qed.
+
+(* `-L n,+k`: k lines starting at n *)
+Theorem plus_count_range n k :
+  1 <= k -> k <= u32_max -> n + (k - 1) <= u32_max ->
+  parse_line_range (print_N n ++ [c_comma; c_plus] ++ print_N k) = Some (n, n + (k - 1)).
+Proof.
+  intros H1 Hk H2. unfold parse_line_range.
+  change (print_N n ++ [c_comma; c_plus] ++ print_N k) with (print_N n ++ c_comma :: (c_plus :: print_N k)).
+  rewrite split_first_app by (apply mem_digits_false; [reflexivity|apply print_N_digits]).
+  rewrite parse_u32_print by lia. cbn [strip_prefix]. rewrite N.eqb_refl.
+  rewrite parse_u32_print by lia.
+  assert ((0 <? k) && (n + (k - 1) <=? u32_max) = true) as -> by lia. reflexivity.
 Qed.
 
 Lemma oline_eqb_refl x : oline_eqb x x = true.
@@ -1004,20 +1049,6 @@ Proof. unfold oline_eqb. rewrite N.eqb_refl, str_eqb_refl, opt_str_eqb_refl. ref
 
 Lemma olines_eqb_refl l : olines_eqb l l = true.
 Proof. induction l as [|x l IH]; [reflexivity|]. cbn. rewrite oline_eqb_refl, IH. reflexivity. Qed.
-
-Definition pipeline_meets_spec (o : opts) notes foreign (path : list N) (es : list gentry) : bool :=
-  match blame_lines o notes foreign path (print_line_porcelain es) with
-  | Ok ls => olines_eqb ls (map (spec_line o notes foreign) (glines es))
-  | _ => false
-  end.
-
-Lemma pipeline_meets_spec_false o notes foreign path es :
-  pipeline_meets_spec o notes foreign path es = false ->
-  blame_lines o notes foreign path (print_line_porcelain es)
-  <> Ok (map (spec_line o notes foreign) (glines es)).
-Proof.
-  unfold pipeline_meets_spec. intros H E. rewrite E in H. rewrite olines_eqb_refl in H. discriminate.
-Qed.
 
 (* ---- witnesses (ASCII: f.txt = 102 46 116 120 116, g.txt = 103 46 116 120 116) ---- *)
 Definition w_f : list N := [102; 46; 116; 120; 116].
@@ -1030,7 +1061,9 @@ Definition w_user : list N := [85; 115; 101; 114].    (* User *)
 
 Definition w_entry (sha : list N) (orig final num : N) (fname : list N) (bnd : bool) : gentry :=
   mkG sha orig final num w_user [60; 117; 62] [49] [43; 48] w_user [60; 117; 62] [49] [43; 48]
-      [109; 115; 103] None bnd fname (repeat [120] (N.to_nat num)).
+      [109; 115; 103] None bnd fname fname (repeat [120] (N.to_nat num)).
+
+Definition w_dq (s : list N) : list N := s.
 
 (* commit 1a2b created f.txt, lines 2-3 by session h1 (later entry h2 also claims line 3);
    commit c3d4 renamed f.txt to g.txt without editing it *)
@@ -1046,35 +1079,28 @@ Definition w_renamed : list gentry := [w_entry w_sha1 1 1 4 w_f true].
 (* blame of f.txt before the rename (same facts, requested path = path in the commit) *)
 Definition w_plain : list gentry := [w_entry w_sha1 1 1 4 w_f true; w_entry w_sha2 1 5 1 w_f false].
 
-Theorem rename_refuted :
-  exists o notes foreign path es,
-    wf_entries es = true /\ Known_C09 path es /\
-    blame_lines o notes foreign path (print_line_porcelain es)
-    <> Ok (map (spec_line o notes foreign) (glines es)).
+Lemma w_names es : (forall g, In g es -> g_filename_printed g = g_filename g /\ first_is c_dq (g_filename g) = false) ->
+  names_agree w_dq es.
 Proof.
-  exists w_opts, w_notes, w_foreign, w_g, w_renamed. split; [reflexivity|]. split.
-  - exists (mkGline 1 1 w_sha1 w_user true w_f). split; [left; reflexivity|discriminate].
-  - apply pipeline_meets_spec_false. vm_compute. reflexivity.
+  intros H g Hg. destruct (H g Hg) as [E F]. unfold unescape_git_path. rewrite E, F. reflexivity.
 Qed.
 
-(* what the renamed file's blame reports: every line human, although the note lists lines 2-3 *)
-Example rename_all_human :
-  blame_lines w_opts w_notes w_foreign w_g (print_line_porcelain w_renamed)
-  = Ok [mkOline 1 w_user None; mkOline 2 w_user None; mkOline 3 w_user None; mkOline 4 w_user None]
-  /\ map (spec_line w_opts w_notes w_foreign) (glines w_renamed)
-     = [mkOline 1 w_user None; mkOline 2 w_h1 (Some w_h1); mkOline 3 w_h2 (Some w_h2); mkOline 4 w_user None].
-Proof. split; vm_compute; reflexivity. Qed.
+(* the renamed file: git says every line comes from 1a2b where the file was f.txt; blaming g.txt finds the note *)
+Example rename_keeps_attribution :
+  blame_lines w_dq w_opts w_notes w_foreign w_g (print_line_porcelain w_renamed)
+  = Ok [mkOline 1 w_user None; mkOline 2 w_h1 (Some w_h1); mkOline 3 w_h2 (Some w_h2); mkOline 4 w_user None].
+Proof. vm_compute. reflexivity. Qed.
 
 (* non-vacuity: a non-trivial input meets the hypotheses of overlay_spec and has AI lines *)
 Example nonvacuous_plain :
   wf_entries w_plain = true
-  /\ (forall x, In x (glines w_plain) -> gl_filename x = w_f)
-  /\ blame_lines w_opts w_notes w_foreign w_f (print_line_porcelain w_plain)
+  /\ names_agree w_dq w_plain
+  /\ blame_lines w_dq w_opts w_notes w_foreign w_f (print_line_porcelain w_plain)
      = Ok [mkOline 1 w_user None; mkOline 2 w_h1 (Some w_h1); mkOline 3 w_h2 (Some w_h2);
            mkOline 4 w_user None; mkOline 5 w_user None].
 Proof.
   split; [reflexivity|]. split.
-  - intros x Hx. vm_compute in Hx. repeat (destruct Hx as [<-|Hx]; [reflexivity|]). destruct Hx.
+  - apply w_names. intros g Hg. repeat (destruct Hg as [<-|Hg]; [split; reflexivity|]). destruct Hg.
   - vm_compute. reflexivity.
 Qed.
 
@@ -1084,9 +1110,9 @@ Example nonvacuous_json :
 Proof. vm_compute. reflexivity. Qed.
 
 Example nonvacuous_split :
-  blame_hunks w_opts w_notes w_foreign w_f (print_line_porcelain w_plain)
-  = Ok [mkHunk 1 1 1 1 w_sha1 w_user true None; mkHunk 2 2 2 2 w_sha1 w_user true (Some w_user);
-        mkHunk 3 4 3 4 w_sha1 w_user true None; mkHunk 5 5 1 1 w_sha2 w_user false None].
+  blame_hunks w_dq w_opts w_notes w_foreign w_f (print_line_porcelain w_plain)
+  = Ok [mkHunk 1 1 1 1 w_sha1 w_user true None w_f; mkHunk 2 2 2 2 w_sha1 w_user true (Some w_user) w_f;
+        mkHunk 3 4 3 4 w_sha1 w_user true None w_f; mkHunk 5 5 1 1 w_sha2 w_user false None w_f].
 Proof. vm_compute. reflexivity. Qed.
 
 (* ================================================================== 7. statements in their final form *)
